@@ -20,7 +20,11 @@ def main() -> int:
     ap.add_argument("--full", action="store_true")
     ap.add_argument("--workers", type=int, default=int(os.environ.get("VERIF_WORKERS", "0")) or (os.cpu_count() or 4))
     a = ap.parse_args()
-    os.environ.setdefault("PYTHONHASHSEED", "0")
+    if "PYTHONHASHSEED" not in os.environ:
+        # string-hash order (set iteration -> symbol numbering) is a nondeterminism seam the checks own: exploration
+        # workers and replay processes must all see the same one, so start over with it pinned
+        os.environ["PYTHONHASHSEED"] = "0"
+        os.execv(sys.executable, [sys.executable, "-m", "mc.check"] + sys.argv[1:])
     seed = int(os.environ.get("VERIF_SEED", "0") or 0)
     modname = "mc.props." + a.prop.lower()
     from mc import engine
